@@ -160,8 +160,8 @@ where
     T: rand_distr::uniform::SampleUniform + num_traits::FromPrimitive,
 {
     let id = out.fresh_id("nt");
-    let family = *rng.pick(&[0u64, 0, 1, 2, 3, 3, 3, 4, 5]);
-    let dim0 = rng.range(1, 8) as usize;
+    let family = *rng.pick(&[0u64, 0, 1, 2, 3, 3, 3, 4, 5, 8, 8]);
+    let dim0 = if family == 8 { rng.range(1, 3) as usize } else { rng.range(1, 8) as usize };
     let (target, dim) = random_target(rng, family, dim0);
     let start: Vec<f64> = (0..dim).map(|_| rng.normal() * 0.8 + if family == 1 || family == 2 { 0.6 } else { 0.0 }).collect();
     let delta = rng.uniform(0.55, 0.95);
@@ -230,10 +230,13 @@ where
         _ => rng.log_uniform(0.01, 0.6),
     };
     let slack = match rng.below(4) {
-        0 => 999.0 + rng.unit() * 2.0, // the divergence bound ± 1
+        0 => 999.0 + rng.unit() * 2.0, // energy drops of about 1000 relative to the start
         1 => -rng.unit() * 0.3,         // slice level above the start: first leaves inadmissible
         _ => rng.unit() * 3.0,
     };
+    // a third of the cases: slice level placed so that one *actual* leaf sits at the divergence bound
+    // (logu - 1000 within ±{0.05, 0.5} of that leaf's joint), found by a preliminary call
+    let at_bound = if rng.below(3) == 0 { Some((rng.below(1 << 10), if rng.coin(0.5) { 0.05 } else { 0.5 } * if rng.coin(0.5) { 1.0 } else { -1.0 })) } else { None };
     let seed = rng.next();
     if !out.selected(&id) {
         return;
@@ -243,7 +246,19 @@ where
         let lp0 = vec1::<T, B>(&lp)[0];
         let momt: Vec<f64> = mom.iter().map(|x| T::from64(*x).to64()).collect();
         let joint0 = T::from64(lp0 - 0.5 * momt.iter().map(|x| x * x).sum::<f64>());
-        let logu = T::from64(joint0.to64() - slack);
+        let mut logu = T::from64(joint0.to64() - slack);
+        if let Some((pick, delta)) = at_bound {
+            let mut r0 = SmallRng::seed_from_u64(seed);
+            verif_hooks::tl_enable();
+            let _ = verif_build_tree::<B, T, AnyTarget>(t1::<T, B>(&pos), t1::<T, B>(&mom), grad.clone(), T::from64(-1e30), v, j, T::from64(eps), &target, joint0, &mut r0);
+            let ev0 = verif_hooks::tl_drain();
+            let joints: Vec<f64> = ev0.iter().filter(|e| e.starts_with("nuts leaf ")).map(|e| fhex(e, "joint=")).filter(|x| x.is_finite()).collect();
+            if !joints.is_empty() {
+                let jk = joints[(pick as usize) % joints.len()];
+                logu = T::from64(jk + 1000.0 + delta * (1.0 + jk.abs() * 1e-3));
+                out.count("tree_leaf_at_divergence_bound");
+            }
+        }
         let mut r = SmallRng::seed_from_u64(seed);
         let sel: Vec<f64> = {
             let mut c = r.clone();
